@@ -256,8 +256,20 @@ func mTotal() int {
 	return len(mm.incs)
 }
 
+// mExploreK > 0: explored schedules instead of the three fixed policies - every schedule of the accept
+// loop, the connection goroutines, the HTTP/1.1 server and the stubs' goroutines that differs from the
+// base order at no more than mExploreK scheduling points (blocking operations and the moment before
+// every channel operation / select / lock); the connection outcomes are then limited to
+// {handshake fails, garbage, h2, http/1.1} with a clean TLS close and one completion order.
+var mExploreK int
+
 func mConcurrent(n int) {
-	vSchedulePolicy(vRange("schedulePolicy", 0, 2)) // thread mode, under each of the three scheduling policies
+	if mExploreK > 0 {
+		vScheduleExplore(mExploreK, true)
+		vScheduleBase(vRange("baseOrder", 0, 1))
+	} else {
+		vSchedulePolicy(vRange("schedulePolicy", 0, 2)) // thread mode, under each of the three scheduling policies
+	}
 	mm.under, mm.raw, mm.byName = map[*tls.Conn]net.Conn{}, map[*tls.Conn]*mConn{}, map[string]*mConn{}
 	mm.incs, mm.seen = nil, map[string]string{}
 	ctx, cancel := context.WithCancel(context.Background())
@@ -272,9 +284,15 @@ func mConcurrent(n int) {
 	var conns []*mConn
 	for i := 0; i < n; i++ {
 		c := &mConn{name: []string{"198.51.100.1:1", "198.51.100.2:2", "198.51.100.3:3"}[i], gate: make(chan struct{})}
-		c.outcome = vRange(vName("outcome", i), 0, mOutcomes-1)
+		if mExploreK > 0 {
+			c.outcome = vRange(vName("outcome", i), 0, mHTTP1)
+		} else {
+			c.outcome = vRange(vName("outcome", i), 0, mOutcomes-1)
+		}
 		c.in = mHello(byte(0xA0 + i))
-		c.tlsCloseFails = vBool(vName("tlsCloseFails", i))
+		if mExploreK == 0 {
+			c.tlsCloseFails = vBool(vName("tlsCloseFails", i))
+		}
 		if c.outcome == mGarbage {
 			c.in = []byte("GET / HTTP/1.0\r\n\r\n")
 		}
@@ -296,7 +314,11 @@ func mConcurrent(n int) {
 	}
 	vAssert(mTotal() == wantFailed && mCountOf("0", "") == wantFailed, "failures-counted-once-with-failure-labels")
 	// the served connections finish in any order
-	order := [][]int{{0, 1, 2}, {0, 2, 1}, {1, 0, 2}, {1, 2, 0}, {2, 0, 1}, {2, 1, 0}}[vRange("completionOrder", 0, 5)]
+	orders := 5
+	if mExploreK > 0 {
+		orders = 2 // {0,1,2} and {1,0,2}
+	}
+	order := [][]int{{0, 1, 2}, {1, 0, 2}, {0, 2, 1}, {1, 2, 0}, {2, 0, 1}, {2, 1, 0}}[vRange("completionOrder", 0, orders)]
 	done := wantFailed
 	for _, k := range order {
 		if k >= n {
@@ -327,6 +349,16 @@ func mConcurrent(n int) {
 		vFail("serve-returns-after-context-cancelled")
 	}
 	vAssert(vLiveThreads() <= 1, "connection-goroutines-ended") // the internal HTTP/1.1 accept loop ends with its listener
+}
+
+func VerifC16_concurrent_schedules_quick() {
+	mExploreK = 1
+	mConcurrent(2)
+}
+
+func VerifC16_concurrent_schedules_thorough() {
+	mExploreK = 2
+	mConcurrent(2)
 }
 
 func VerifC16_concurrent_quick()    { mConcurrent(2) }
